@@ -3,9 +3,8 @@
 
     Definitions only (so that the model still extracts when a proof breaks).
 
-    Go [int] / [uint] are modelled by [Z]: [int] without wrap-around (all
-    quantities here are extents and indices of arrays that fit in memory),
-    [uint(x)] as [x mod 2^64].
+    Go [int] / [uint] are modelled by [Z]; the arithmetic of [sliceSize] wraps
+    to 64 bits as in Go ([go_int]), [uint(x)] is [x mod 2^64].
 
     The HDF5 side (section "HDF5 dataspace selections") is the documented
     behaviour of [H5Sselect_hyperslab] / [H5Sselect_valid] and of the order in
@@ -22,18 +21,27 @@ Definition go_max_int (a b : Z) : Z := if a >? b then a else b.
 
 Definition go_uint (z : Z) : Z := z mod 18446744073709551616.
 
+(** Go [int] is a 64-bit two's complement integer: [go_int z] is the value an
+    [int] variable holds after an operation whose mathematical result is [z]
+    (wrap-around).  The arguments of the functions below are Go ints, i.e.
+    already in [-2^63, 2^63). *)
+Definition go_int (z : Z) : Z := (z + 9223372036854775808) mod 18446744073709551616 - 9223372036854775808.
+
 (** ** io/hdf5_util.go
 
     [func sliceSize(slice []int, size int) int]
       extent := m.MaxInt(0, m.MinInt(size, slice[1]) - m.MinInt(size, slice[0]))
       return (extent + slice[2] - 1) / slice[2]
     [None] = the Go code panics (index out of range, integer divide by zero).
-    Go's [/] on ints truncates toward zero: [Z.quot]. *)
+    Go's [/] on ints truncates toward zero: [Z.quot].  Every arithmetic result
+    wraps to 64 bits, as in Go: for a stop near MaxInt64 nothing overflows
+    (stop is clipped to the extent before any arithmetic), for a step beyond
+    MaxInt64 - extent the sum extent + step - 1 does. *)
 Definition slice_size (sl : list Z) (size : Z) : option Z :=
   match sl with
   | a :: b :: s :: _ =>
-      let extent := go_max_int 0 (go_min_int size b - go_min_int size a) in
-      if s =? 0 then None else Some (Z.quot (extent + s - 1) s)
+      let extent := go_max_int 0 (go_int (go_min_int size b - go_min_int size a)) in
+      if s =? 0 then None else Some (go_int (Z.quot (go_int (extent + s - 1)) s))
   | _ => None
   end.
 
